@@ -216,9 +216,11 @@ impl Ctx<'_> {
         let alternatives = [left_chain(operands, ops), right_chain(operands, ops)];
         let discriminating = alternatives.iter().any(|alt| eval(alt) != expected);
         if matches!(expected, Err(Fail::IllTyped)) && !discriminating {
+            self.rep.count(&format!("skipped-ill-typed-under-every-grouping-{}", ops.len()));
             return; // ill-typed however it is grouped: says nothing about grouping
         }
         let opkey = ops.join(" ");
+        self.rep.count(&format!("chains-of-{}-operators", ops.len()));
         for hidden in [false, true] {
             for spaces in [true, false] {
                 if !spaces && ops.iter().any(|o| *o == "-") && operands.iter().any(|x| matches!(x, X::I(v) if *v < 0)) {
